@@ -404,6 +404,21 @@ Inductive region : Type :=
 | Seg (h t : Z)
 | Regs (rs : list region).
 
+Section RegionInd.
+  Variable P : region -> Prop.
+  Hypothesis HS : forall h t, P (Seg h t).
+  Hypothesis HR : forall rs, Forall P rs -> P (Regs rs).
+  Fixpoint region_ind' (r : region) : P r :=
+    match r with
+    | Seg h t => HS h t
+    | Regs rs => HR rs ((fix go (rs : list region) : Forall P rs :=
+                           match rs with
+                           | [] => Forall_nil P
+                           | x :: t => Forall_cons x (region_ind' x) (go t)
+                           end) rs)
+    end.
+End RegionInd.
+
 Fixpoint region_complement (r : region) : region :=
   match r with
   | Seg h t => Seg t h
